@@ -145,8 +145,12 @@ pub fn chain_case(case: &Value, mode: &str, rep: &mut Report) {
             match g!("export", export(c)) { Ok((a, b)) => if cat(&[], &a, &b) != data { bad(rep, "data not restored after rejected symbols".into()); }, Err(()) => bad(rep, "export refused".into()) }
         }
         "c10" => {
+            // first the enumerated history (decodes and precision changes, all of which the specification says succeed), then
             // decode with arbitrary models until the data runs out: only OutOfCompressedData may be reported
-            let mut c = cd0;
+            let (c_after, syms) = g!("decode history", run_hist(cd0, &hist, None));
+            if let Some(e) = syms.iter().find_map(|r| r.as_ref().err()) { bad(rep, format!("decoding the enumerated history reported {}", e)); return; }
+            if hist.iter().any(|h| h[2] == 0) { rep.class("c10_after_precision_change"); }
+            let mut c = c_after;
             for i in 0..(4 * data.len() + 4) {
                 let p = c.prec(); let t = 1u64 << p;
                 let cdf = match i % 3 { 0 => vec![0, 1, t], 1 => vec![0, t - 1, t], _ => vec![0, t / 2, t] };
